@@ -130,6 +130,28 @@ func gennyTypes(repoDir, rel string) []string {
 	return strings.Split(string(m[1]), ",")
 }
 
+// catalogModels lists the model names registered by the generated wrappers of the current tree
+func catalogModels(repoDir string) []string {
+	files, _ := filepath.Glob(filepath.Join(repoDir, "models", "*", "generated_*.go"))
+	re := regexp.MustCompile(`sim\.Catalog\["([A-Za-z0-9_]+)"\]`)
+	seen := map[string]bool{}
+	var out []string
+	for _, f := range files {
+		b, err := os.ReadFile(f)
+		if err != nil {
+			continue
+		}
+		for _, m := range re.FindAllSubmatch(b, -1) {
+			if !seen[string(m[1])] {
+				seen[string(m[1])] = true
+				out = append(out, string(m[1]))
+			}
+		}
+	}
+	sort.Strings(out)
+	return out
+}
+
 func setupWorkspace(repoDir, verifDir, prop string) (*Workspace, error) {
 	scratch, err := os.MkdirTemp(getenvDefault("VERIF_SCRATCH", os.TempDir()), "gosmt-")
 	if err != nil {
@@ -160,7 +182,21 @@ func setupWorkspace(repoDir, verifDir, prop string) (*Workspace, error) {
 	for rel, real := range files {
 		b, _ := os.ReadFile(real)
 		src := string(b)
-		if m := regexp.MustCompile(`(?m)^//vsym:foreach\s+(\S+)\s+(\S+)`).FindStringSubmatch(src); m != nil {
+		if regexp.MustCompile(`(?m)^//vsym:formodels`).MatchString(src) {
+			// template: one instance per catalogued model found in the generated wrappers of the tree
+			names := catalogModels(repoDir)
+			if len(names) == 0 {
+				return nil, fmt.Errorf("no catalogued models found")
+			}
+			for _, mn := range names {
+				inst := strings.ReplaceAll(src, "MODELNAME", mn)
+				inst = regexp.MustCompile(`(?m)^//vsym:formodels.*$`).ReplaceAllString(inst, "")
+				gen := filepath.Join(scratch, "gen_"+strings.ReplaceAll(strings.TrimSuffix(rel, ".go"), "/", "_")+"_"+mn+".go")
+				os.WriteFile(gen, []byte(inst), 0644)
+				virt := filepath.Join(repoDir, filepath.Dir(rel), strings.TrimSuffix(filepath.Base(rel), ".go")+"_"+mn+".go")
+				ws.Overlay[virt] = gen
+			}
+		} else if m := regexp.MustCompile(`(?m)^//vsym:foreach\s+(\S+)\s+(\S+)`).FindStringSubmatch(src); m != nil {
 			// template: instantiate once per element type read from the genny directive
 			tys := gennyTypes(repoDir, m[2])
 			if len(tys) == 0 {
@@ -512,6 +548,9 @@ func runHarness(ld *Loaded, hs *HarnessSpec, tier string, known map[string]bool,
 		in.known = known
 		in.noInit = hs.NoInit
 		in.feasCache = feasCache
+		if hs.WallS > 0 {
+			in.deadline = t0.Add(time.Duration(hs.WallS) * time.Second)
+		}
 		in.forced = spec.forced
 		in.forcedSite = spec.sites
 		var keys []string
@@ -638,7 +677,13 @@ func (rp *Replayer) testBinary(hs *HarnessSpec, all []*HarnessSpec) (string, err
 	rp.ws.Overlay[filepath.Join(rp.ws.RepoDir, hs.PkgDir, "zz_vsym_replay_test.go")] = gen
 	rp.ws.writeOverlayJSON()
 	bin := filepath.Join(rp.ws.Scratch, strings.ReplaceAll(hs.PkgDir, "/", "_")+".test")
-	cmd := exec.Command("go", "test", "-c", "-vet=off", "-modfile="+rp.ws.ModFile, "-overlay="+rp.ws.OvJSON, "-o", bin, "./"+hs.PkgDir)
+	args := []string{"test", "-c", "-vet=off", "-modfile=" + rp.ws.ModFile, "-overlay=" + rp.ws.OvJSON, "-o", bin}
+	if hs.Prop == "C05" {
+		// goroutine footprints: the native replay runs under the Go race detector
+		args = append(args, "-race")
+	}
+	args = append(args, "./"+hs.PkgDir)
+	cmd := exec.Command("go", args...)
 	cmd.Dir = rp.ws.RepoDir
 	cmd.Env = rp.ws.Env
 	out, err := cmd.CombinedOutput()
@@ -705,6 +750,16 @@ func (rp *Replayer) Replay(hs *HarnessSpec, ob *Obligation, all []*HarnessSpec, 
 	switch {
 	case strings.Contains(so, "VSYM-ASSUME-FAILED"):
 		ro.Why = "replay does not satisfy the harness assumptions in float64/native arithmetic"
+	case strings.HasPrefix(ob.Label, "fact:"):
+		// a fact about the executed SSA itself (e.g. a store to a package-level variable during
+		// Run) that a native run cannot observe: the satisfiable path condition is the evidence
+		ro.Reproduced = !strings.Contains(so, "VSYM-ASSUME-FAILED")
+		ro.Why = "engine-observed fact on a feasible path (not observable natively)"
+	case strings.Contains(ob.Label, "no-conflicting-accesses"):
+		ro.Reproduced = strings.Contains(so, "DATA RACE")
+		if !ro.Reproduced {
+			ro.Why = "the Go race detector reported no race in the native run"
+		}
 	case ob.Kind == "assert":
 		ro.Reproduced = strings.Contains(so, "VSYM-ASSERT-FAILED "+ob.Label+"\n")
 		if !ro.Reproduced {
